@@ -216,7 +216,7 @@ def _account(ctx, events, tag):
 
 def run(ctx):
     ctx.assumptions += [
-        "TLC enumerates point sets only within the stated bounds (quick: 4 points on {0..2}^2, the half with even coordinate sum is replayed; thorough: 3..5 points on {0..2}^2 and 3..4 points on {0..3}^2)",
+        "TLC enumerates point sets only within the stated bounds (quick: 4 points on {0..2}^2, the half with even coordinate sum is replayed; thorough: 3..5 points on {0..2}^2 - every fifth by coordinate sum is replayed - and 3..4 points on {0..3}^2)",
         "the harness logs object numbers, integer points and - beyond 12 objects and for the cosine metric - dense ranks of the distances computed with the library's own distance definitions; TLC re-derives first pick, greedy optimality, distinctness, range and MaxDis = MaxDis_Fast from them",
         "k-means: centroid*count is rounded by the harness (residual logged), the Euclidean nearest-centroid slack is computed by the harness in double precision; TLC checks labels, member counts, exact member sums and the bound 2 sqrt(dim) 1e-3; runs that hit the 100-iteration cap are not judged on the slack (this tolerance part is exploration)",
         "requests outside the quantifier (more selections than objects, k-means++ with duplicate rows) are never generated",
@@ -257,8 +257,8 @@ def run(ctx):
                 for i, c in enumerate(sets):
                     if i % P == p:
                         f.write(_pts_line(i, c))
-            # quick: reduced call set per point set and k-means on every 64th distinct point set; thorough: everything, k-means on every 8th
-            jobs.append([os.path.join(rd, "grid%d.ndjson" % p), "grid", fn, ctx.seed, 64 if q else 8, 0 if q else 1])
+            # quick: reduced call set per point set and k-means on every 64th distinct point set; thorough: everything, k-means on every 16th
+            jobs.append([os.path.join(rd, "grid%d.ndjson" % p), "grid", fn, ctx.seed, 64 if q else 16, 0 if q else 1])
         ev_grid, san1 = _run_harness(exe, jobs, "grid")
         if sum(1 for e in ev_grid if e["e"] == "Points") != len(sets):
             raise InfraError("replay: %d point sets sent, %d reported" % (len(sets), sum(1 for e in ev_grid if e["e"] == "Points")))
